@@ -40,6 +40,17 @@ Theorem C08_translated_untouched : forall m ver opts,
   (existsb is_mss opts = false -> gen_impersonate_mtu m ver opts = OMss (m - hdr_of ver) :: opts).
 Proof. intros m ver opts. rewrite gen_impersonate_mtu_eq. exact (imp_mtu_untouched m ver opts). Qed.
 
+(* the public wrapper *)
+Theorem gen_fingerprint_mtu_eq db frag ty ver mss : gen_fingerprint_mtu db frag ty ver mss = fp_mtu db frag ty ver mss.
+Proof.
+  unfold gen_fingerprint_mtu, fp_mtu. rewrite gen_valid_for_mtu_fingerprint_eq.
+  destruct (valid_mtu_fp frag ty mss) eqn:V; cbn [negb]; [|reflexivity].
+  assert (H : 0 < mss).
+  { unfold valid_mtu_fp in V. apply andb_prop in V. destruct V as [V _]. apply andb_prop in V. destruct V as [_ V]. apply Z.gtb_lt in V. exact V. }
+  rewrite (gen_mtu_from_mss_eq mss ver H). cbv zeta.
+  destruct db as [recs|]; [|reflexivity]. rewrite gen_find_mtu_match_eq. reflexivity.
+Qed.
+
 Print Assumptions gen_should_fingerprint_eq.
 Print Assumptions gen_valid_for_mtu_fingerprint_eq.
 Print Assumptions gen_mtu_from_mss_eq.
@@ -49,3 +60,4 @@ Print Assumptions gen_find_mtu_match_eq.
 Print Assumptions gen_impersonate_mtu_eq.
 Print Assumptions C08_translated_roundtrip.
 Print Assumptions C08_translated_untouched.
+Print Assumptions gen_fingerprint_mtu_eq.
